@@ -33,6 +33,7 @@ inductive StmtText where
   | rule (gs : List PGap) (name : Bytes) (bs : List BindingText)
   | pool (gs : List PGap) (name : Bytes) (bs : List BindingText) (depth : Nat)
   | default (gs : List PGap) (ps : List (PathText × List PGap))
+  | incl (sub : Bool) (gs : List PGap) (t : PathText)
 
 def StmtText.bytes : StmtText → Bytes → Bytes
   | .build gs b, after => kwBuild ++ (pgapBytes gs ++ b.bytes after)
@@ -40,6 +41,7 @@ def StmtText.bytes : StmtText → Bytes → Bytes
   | .rule gs name bs, after => kwRule ++ (pgapBytes gs ++ (name ++ NL :: (bindingsBytes bs ++ after)))
   | .pool gs name bs _, after => kwPool ++ (pgapBytes gs ++ (name ++ NL :: (bindingsBytes bs ++ after)))
   | .default gs ps, after => kwDefault ++ (pgapBytes gs ++ (pathsBytes ps ++ NL :: after))
+  | .incl sub gs t, after => (if sub then kwSubninja else kwInclude) ++ (pgapBytes gs ++ (pathBytes t ++ after))
 
 def bindingsMap (bs : List BindingText) : EvalMap := bs.foldl (fun m b => Eval.insert m b.name (valueOf b.rhs)) []
 
@@ -55,6 +57,8 @@ def StmtText.WF : StmtText → Bytes → Prop
       (∃ c0 r0, after = c0 :: r0 ∧ c0 ≠ SP) ∧ BindingsWF (fun n => n == bytesOfString "depth") bs after ∧
       poolDepth (bindingsMap bs) = some d
   | .default gs ps, after => gs ≠ [] ∧ ps ≠ [] ∧ PathsWF ps (NL :: after) ∧ GapEnd (pathsBytes ps ++ NL :: after)
+  | .incl _ gs t, after => gs ≠ [] ∧ ∃ r, after = NL :: r ∧ SegsWF false t.1 (t.2 ++ NL :: r) ∧
+      (∀ c ∈ t.2, plain false c) ∧ pathValue t ≠ [] ∧ GapEnd (pathBytes t ++ NL :: r)
 
 /-- The item `Parser::read` produces for it (`ln`: the line number a `build` statement records). -/
 def StmtText.item : StmtText → Nat → Item
@@ -67,6 +71,7 @@ def StmtText.item : StmtText → Nat → Item
   | .rule _ name bs, _ => .stmt (.rule name (bindingsMap bs))
   | .pool _ name _ d, _ => .stmt (.pool name d)
   | .default _ ps, _ => .stmt (.default (ps.map (fun pg => pathValue pg.1)))
+  | .incl sub _ t, _ => .stmt (if sub then .subninja (pathValue t) else .include (pathValue t))
 
 /-- One written statement is read as its item, leaving the scanner at what follows. -/
 theorem readItem_stmt (buf : Array UInt8) (st : StmtText) (after : Bytes) (hwf : st.WF after) (fuel : Nat)
@@ -92,6 +97,11 @@ theorem readItem_stmt (buf : Array UInt8) (st : StmtText) (after : Bytes) (hwf :
     obtain ⟨h1, h2, h3, h4⟩ := hwf
     obtain ⟨s', h⟩ := readItem_default buf gs h1 ps h2 after h3 h4 fuel s g hr
     exact ⟨s', 0, h⟩
+  | incl sub gs t =>
+    obtain ⟨h1, r, hafter, h2, h3, h4, h5⟩ := hwf
+    subst hafter
+    obtain ⟨s', h⟩ := readItem_include buf sub gs h1 t r h2 h3 h4 h5 fuel s g hr
+    exact ⟨s', 0, h⟩
 
 theorem StmtText.bytes_pos (st : StmtText) (after : Bytes) (hwf : st.WF after) : 0 < (st.bytes after).length := by
   cases st with
@@ -115,6 +125,11 @@ theorem StmtText.bytes_pos (st : StmtText) (after : Bytes) (hwf : st.WF after) :
   | default gs ps =>
     show 0 < (kwDefault ++ _).length
     rw [List.length_append]; have : 0 < kwDefault.length := by decide
+    omega
+  | incl sub gs t =>
+    show 0 < ((if sub then kwSubninja else kwInclude) ++ _).length
+    rw [List.length_append]
+    have : 0 < (if sub then kwSubninja else kwInclude).length := by cases sub <;> decide
     omega
 
 /-- Blank lines and comments in front of anything are skipped, one unit of fuel each. -/
@@ -156,8 +171,13 @@ theorem Rest.length_le {buf : Array UInt8} {k : Nat} {r : Bytes} (h : Rest buf k
 
 /-! ### The effects of the statements, and the file-level theorem -/
 
-/-- What `stmtLoop` does with one item (the statements that do not touch the file system). -/
-def applyItem (file : Bytes) (l : Loader) (vars : StrMap) : Item → Except LoadErr (Loader × StrMap)
+/-- What `stmtLoop` does with one item.  `include` / `subninja` read the named file through `fs`
+    and hand it to `sub` (the parser for one nested file); the including file continues with its
+    own scope (`subninja`, and `include` in n2: finding F12) or with the scope the included file
+    ended with (`include` under Ninja's rule, `inclExtends = true`). -/
+def applyItem (inclExtends : Bool) (fs : Fs) (depth : Nat)
+    (sub : Loader → Bytes → Bytes → StrMap → Nat → Except LoadErr (Loader × StrMap))
+    (file : Bytes) (l : Loader) (vars : StrMap) : Item → Except LoadErr (Loader × StrMap)
   | .binding name val => .ok (l, Eval.insert vars name (evaluate [envOfStr vars] val))
   | .stmt (.default ps) =>
     match evalPaths l [envOfStr vars] ps with
@@ -169,14 +189,40 @@ def applyItem (file : Bytes) (l : Loader) (vars : StrMap) : Item → Except Load
     | .error e => .error e
     | .ok l1 => .ok (l1, vars)
   | .stmt (.pool name d) => .ok ({ l with pools := Eval.insert l.pools name d }, vars)
-  | _ => .error (.other "not a plain statement")
+  | .stmt (.include p) =>
+    match path l (evaluate [envOfStr vars] p) with
+    | .error e => .error e
+    | .ok (l1, id) =>
+      match fs ((l1.graph.files[id]?.map (·.name)).getD []) with
+      | none => .error (.other "read")
+      | some content =>
+        if depth ≥ MAX_INCLUDE_DEPTH then .error (.other "include nesting")
+        else
+          match sub l1 ((l1.graph.files[id]?.map (·.name)).getD []) content vars (depth + 1) with
+          | .error e => .error e
+          | .ok (l2, vars') => .ok (l2, afterInclude inclExtends vars vars')
+  | .stmt (.subninja p) =>
+    match path l (evaluate [envOfStr vars] p) with
+    | .error e => .error e
+    | .ok (l1, id) =>
+      match fs ((l1.graph.files[id]?.map (·.name)).getD []) with
+      | none => .error (.other "read")
+      | some content =>
+        if depth ≥ MAX_INCLUDE_DEPTH then .error (.other "include nesting")
+        else
+          match sub l1 ((l1.graph.files[id]?.map (·.name)).getD []) content vars (depth + 1) with
+          | .error e => .error e
+          | .ok (l2, _) => .ok (l2, vars)
+  | .eof => .error (.other "eof is not a statement")
 
-def applyItems (file : Bytes) : List Item → Loader → StrMap → Except LoadErr (Loader × StrMap)
+def applyItems (inclExtends : Bool) (fs : Fs) (depth : Nat)
+    (sub : Loader → Bytes → Bytes → StrMap → Nat → Except LoadErr (Loader × StrMap))
+    (file : Bytes) : List Item → Loader → StrMap → Except LoadErr (Loader × StrMap)
   | [], l, vars => .ok ({ l with builddir := Eval.lookup vars (bytesOfString "builddir") }, vars)
   | it :: rest, l, vars =>
-    match applyItem file l vars it with
+    match applyItem inclExtends fs depth sub file l vars it with
     | .error e => .error e
-    | .ok (l', vars') => applyItems file rest l' vars'
+    | .ok (l', vars') => applyItems inclExtends fs depth sub file rest l' vars'
 
 /-- Noise, then a statement. -/
 abbrev FSeg := List Noise × StmtText
@@ -194,7 +240,7 @@ theorem stmtLoop_item (inclExtends : Bool) (fs : Fs) (file : Bytes) (depth : Nat
     (fuel : Nat) (l : Loader) (sc sc' : Scanner) (vars : StrMap) (st : StmtText) (ln : Nat)
     (h : readItem (sc.buf.size + 1) sc = .ok (st.item ln) sc') :
     stmtLoop inclExtends fs file depth sub (fuel + 1) l sc vars =
-      match applyItem file l vars (st.item ln) with
+      match applyItem inclExtends fs depth sub file l vars (st.item ln) with
       | .error e => .error e
       | .ok (l', vars') => stmtLoop inclExtends fs file depth sub fuel l' sc' vars' := by
   conv => lhs; unfold stmtLoop
@@ -211,6 +257,42 @@ theorem stmtLoop_item (inclExtends : Bool) (fs : Fs) (file : Bytes) (depth : Nat
     cases evalPaths l [envOfStr vars] _ with
     | error e => rfl
     | ok r => obtain ⟨l1, ids⟩ := r; rfl
+  | incl isSub gs t =>
+    cases isSub with
+    | false =>
+      simp only [StmtText.item, applyItem, Bool.false_eq_true, if_false]
+      cases path l (evaluate [envOfStr vars] (pathValue t)) with
+      | error e => rfl
+      | ok r =>
+        obtain ⟨l1, id⟩ := r
+        simp only []
+        cases fs ((l1.graph.files[id]?.map (·.name)).getD []) with
+        | none => rfl
+        | some content =>
+          simp only []
+          by_cases hd : depth ≥ MAX_INCLUDE_DEPTH
+          · simp only [hd, if_true]
+          · simp only [hd, if_false]
+            cases sub l1 ((l1.graph.files[id]?.map (·.name)).getD []) content vars (depth + 1) with
+            | error e => rfl
+            | ok r2 => obtain ⟨l2, v2⟩ := r2; rfl
+    | true =>
+      simp only [StmtText.item, applyItem, if_true]
+      cases path l (evaluate [envOfStr vars] (pathValue t)) with
+      | error e => rfl
+      | ok r =>
+        obtain ⟨l1, id⟩ := r
+        simp only []
+        cases fs ((l1.graph.files[id]?.map (·.name)).getD []) with
+        | none => rfl
+        | some content =>
+          simp only []
+          by_cases hd : depth ≥ MAX_INCLUDE_DEPTH
+          · simp only [hd, if_true]
+          · simp only [hd, if_false]
+            cases sub l1 ((l1.graph.files[id]?.map (·.name)).getD []) content vars (depth + 1) with
+            | error e => rfl
+            | ok r2 => obtain ⟨l2, v2⟩ := r2; rfl
 
 /-- **The file is read as written.**  For a buffer whose unread part is the written statements
     (each preceded by any blank lines and comments) followed by trailing blank lines / comments
@@ -224,7 +306,7 @@ theorem stmtLoop_file (inclExtends : Bool) (fs : Fs) (file : Bytes) (depth : Nat
     Rest buf sc.ofs (fileBytes segs (noiseBytes tailNoise [NUL])) → segs.length < fuel →
     ∃ lns : List Nat, lns.length = segs.length ∧
       stmtLoop inclExtends fs file depth sub fuel l sc vars =
-        applyItems file (List.zipWith (fun (sg : FSeg) ln => sg.2.item ln) segs lns) l vars := by
+        applyItems inclExtends fs depth sub file (List.zipWith (fun (sg : FSeg) ln => sg.2.item ln) segs lns) l vars := by
   intro segs
   induction segs with
   | nil =>
@@ -268,7 +350,7 @@ theorem stmtLoop_file (inclExtends : Bool) (fs : Fs) (file : Bytes) (depth : Nat
       obtain ⟨s2, ln, hitem, g2, hr2⟩ := readItem_stmt buf st _ hsw (sc.buf.size - ns.length) s1 g1 hr1
       have hread : readItem (sc.buf.size + 1) sc = .ok (st.item ln) s2 := he.trans hitem
       rw [stmtLoop_item inclExtends fs file depth sub fuel l sc s2 vars st ln hread]
-      cases hap : applyItem file l vars (st.item ln) with
+      cases hap : applyItem inclExtends fs depth sub file l vars (st.item ln) with
       | error e =>
         refine ⟨ln :: List.replicate rest.length 0, by simp, ?_⟩
         simp only [List.zipWith_cons_cons, applyItems, hap]
@@ -298,6 +380,9 @@ theorem fileBytes_length (segs : List FSeg) (tail : Bytes) (hwf : FileWF segs ta
       | binding name v =>
         have : 0 < name.length := List.length_pos_iff.mpr hsw.1
         simp [StmtText.bytes]; omega
+      | incl isSub gs t =>
+        have k5 : 0 < (if isSub then kwSubninja else kwInclude).length := by cases isSub <;> decide
+        simp only [StmtText.bytes, List.length_append]; omega
       | _ =>
         simp [StmtText.bytes, BuildText.bytes, BuildText.tail0, BuildText.tail1, BuildText.tail2,
           BuildText.tail3, BuildText.tail4, BuildText.tail5] <;> omega
@@ -311,7 +396,8 @@ theorem parseFile_as_written (inclExtends : Bool) (fs : Fs) (d : Nat) (l : Loade
     (htext : content ++ [NUL] = fileBytes segs (noiseBytes tailNoise [NUL])) :
     ∃ lns : List Nat, lns.length = segs.length ∧
       parseFile inclExtends fs (d + 1) l file content vars depth =
-        applyItems file (List.zipWith (fun (sg : FSeg) ln => sg.2.item ln) segs lns) l vars := by
+        applyItems inclExtends fs depth (parseFile inclExtends fs d) file
+          (List.zipWith (fun (sg : FSeg) ln => sg.2.item ln) segs lns) l vars := by
   unfold parseFile
   simp only []
   have hsz : (content ++ [NUL]).toArray.size = content.length + 1 := by simp
@@ -349,7 +435,8 @@ theorem load_as_written (inclExtends : Bool) (fs : Fs) (main c content : Bytes) 
     (htext : content ++ [NUL] = fileBytes segs (noiseBytes tailNoise [NUL])) :
     ∃ lns : List Nat, lns.length = segs.length ∧
       loadWith inclExtends fs main =
-        (applyItems c (List.zipWith (fun (sg : FSeg) ln => sg.2.item ln) segs lns)
+        (applyItems inclExtends fs 0 (parseFile inclExtends fs (MAX_INCLUDE_DEPTH + 1)) c
+          (List.zipWith (fun (sg : FSeg) ln => sg.2.item ln) segs lns)
           { graph := { files := [⟨c, none, []⟩] } } []).map (·.1) := by
   obtain ⟨lns, hl, h⟩ := parseFile_as_written inclExtends fs (MAX_INCLUDE_DEPTH + 1)
     { graph := { files := [⟨c, none, []⟩] } } c content [] 0 segs tailNoise htn hwf htext
@@ -390,34 +477,40 @@ example : FileWF [([.comment [104, 105]], .build [.sp] exBuild2)] (noiseBytes [.
    ⟨by simp, exBuild_wf2, gapEnd_of (by decide) (by decide)⟩, trivial⟩
 
 /-- The statements' effects without the end-of-file step. -/
-def runItems (file : Bytes) : List Item → Loader → StrMap → Except LoadErr (Loader × StrMap)
+def runItems (inclExtends : Bool) (fs : Fs) (depth : Nat)
+    (sub : Loader → Bytes → Bytes → StrMap → Nat → Except LoadErr (Loader × StrMap))
+    (file : Bytes) : List Item → Loader → StrMap → Except LoadErr (Loader × StrMap)
   | [], l, vars => .ok (l, vars)
   | it :: rest, l, vars =>
-    match applyItem file l vars it with
+    match applyItem inclExtends fs depth sub file l vars it with
     | .error e => .error e
-    | .ok (l', vars') => runItems file rest l' vars'
+    | .ok (l', vars') => runItems inclExtends fs depth sub file rest l' vars'
 
 /-- **Top-down**: what the first statements of a file do - the scope their bindings build, the
     graph their `build` statements add, each evaluated in the scope as of its own line - does not
     depend on anything written after them; the rest of the file continues from that state. -/
-theorem applyItems_append (file : Bytes) (a b : List Item) (l : Loader) (vars : StrMap) :
-    applyItems file (a ++ b) l vars =
-      match runItems file a l vars with
+theorem applyItems_append (inclExtends : Bool) (fs : Fs) (depth : Nat)
+    (sub : Loader → Bytes → Bytes → StrMap → Nat → Except LoadErr (Loader × StrMap))
+    (file : Bytes) (a b : List Item) (l : Loader) (vars : StrMap) :
+    applyItems inclExtends fs depth sub file (a ++ b) l vars =
+      match runItems inclExtends fs depth sub file a l vars with
       | .error e => .error e
-      | .ok (l', vars') => applyItems file b l' vars' := by
+      | .ok (l', vars') => applyItems inclExtends fs depth sub file b l' vars' := by
   induction a generalizing l vars with
   | nil => rfl
   | cons it rest ih =>
     simp only [List.cons_append, applyItems, runItems]
-    cases applyItem file l vars it with
+    cases applyItem inclExtends fs depth sub file l vars it with
     | error e => rfl
     | ok r => obtain ⟨l', v'⟩ := r; exact ih l' v'
 
 /-- A binding is evaluated exactly once, in the scope of the lines before it, and a later
     re-binding of the same name replaces it for the lines after only. -/
-theorem runItems_binding (file : Bytes) (name : Bytes) (val : EvalStr) (rest : List Item) (l : Loader) (vars : StrMap) :
-    runItems file (.binding name val :: rest) l vars =
-      runItems file rest l (Eval.insert vars name (evaluate [envOfStr vars] val)) := rfl
+theorem runItems_binding (inclExtends : Bool) (fs : Fs) (depth : Nat)
+    (sub : Loader → Bytes → Bytes → StrMap → Nat → Except LoadErr (Loader × StrMap))
+    (file : Bytes) (name : Bytes) (val : EvalStr) (rest : List Item) (l : Loader) (vars : StrMap) :
+    runItems inclExtends fs depth sub file (.binding name val :: rest) l vars =
+      runItems inclExtends fs depth sub file rest l (Eval.insert vars name (evaluate [envOfStr vars] val)) := rfl
 
 
 end N2V.Load
